@@ -36,7 +36,7 @@ func (e *Enc) marr(st *State, name, ksort, vsort string) string {
 	full := "(Array Ref (Array " + ksort + " " + vsort + "))"
 	arrSorts[name] = full
 	if s, ok := st.m[name]; ok {
-		return s
+		return e.touch(s)
 	}
 	return e.epochArr(st, name, full)
 }
